@@ -18,7 +18,7 @@ class PROP(Prop):
     title = "dumps bytes == format-v2 reference (opcode letters fixed in the sidecar); legacy opcodes under the two coercion switches; version byte; strconfig plumbing"
     design_ref = "DESIGN.md section 4, C12"
     targets = ENCODER + [U_ + n for n in ("load_py2string", "load_py3string", "load_unicode", "load_int", "load_longint", "_decode_utf8", "load")] + [
-        f"{GB}:Unserializer.__init__#none", f"{GB}:Unserializer.__init__#channel", f"{GB}:Unserializer.__init__#gateway", f"{GB}:load", f"{GB}:loads", f"chan::{GB}:Channel.reconfigure", "gw::execnet.gateway:Gateway.reconfigure"]
+        f"{GB}:Unserializer.__init__#none", f"{GB}:Unserializer.__init__#channel", f"{GB}:Unserializer.__init__#gateway", f"{GB}:load", f"{GB}:loads", f"{GB}:loads_internal#none", f"{GB}:loads_internal#channel", f"{GB}:loads_internal#gateway", f"chan::{GB}:Channel.reconfigure", "gw::execnet.gateway:Gateway.reconfigure"]
     heavy = {f"{GB}:Unserializer.load": 6, S_ + "_save": 6, S_ + "save_list": 2, S_ + "save_dict": 2}
     assumptions = [
         "the reference encoder `enc` in contracts/serializer.py is written from the statement (letters @A..T as literals, big-endian 4-byte lengths and small ints, ASCII decimal big ints, big-endian IEEE doubles, post-order containers, Q) and stands in for what execnet >= 1.1 on Python 2 emitted",
